@@ -462,6 +462,8 @@ def cmd_check(prop, tier):
     # tests) must not overwrite it
     evdir = os.path.join(VERIF, "evidence") if os.path.abspath(core.REPO) == "/repo" else \
         os.path.join(OUT, "evidence-" + os.path.basename(os.path.abspath(core.REPO)))
+    if os.environ.get("BNPSIM_EVIDENCE_DIR"):      # self-tests run shortened checks: their evidence must not replace the real one
+        evdir = os.environ["BNPSIM_EVIDENCE_DIR"]
     os.makedirs(evdir, exist_ok=True)
     with open(os.path.join(evdir, f"{prop}.json"), "w") as f:
         json.dump(ev, f, indent=1, default=repr)
